@@ -346,7 +346,8 @@ def simplify : Nat → Opts → Expr → R Expr
           if r.isTop then return (if r.size == size then r else mkTop size)
           let minus := oo == Op.sub
           if l.isCst then
-            if r.isCst then return ← callOp fuel oo l r
+            -- two constants: folded; the constant stands for this node and keeps its sign flag (as `op.eval` does)
+            if r.isCst then return (← callOp fuel oo l r).setSf sf
             if minus then
               let nr ← apiNeg fuel r
               eqn2 fuel o Op.add nr l size sf prop
@@ -380,7 +381,10 @@ def eqn1 : Nat → Op → Expr → Nat → Bool → Nat → R Expr
   | 0, _, _, _, _, _ => .error .fuel
   | fuel + 1, o, r, size, sf, prop =>
     match r with
-    | .cst .. => callUop fuel o r
+    | .cst .. => do
+        -- folded constant: it stands for the node `e` and keeps its sign flag (as `uop.eval` does)
+        let res ← callUop fuel o r
+        return res.setSf sf
     | .vec l _ _ => do
         let l' ← l.mapM (fun x => callUop fuel o x)
         mkVec l'
@@ -572,7 +576,9 @@ def eqn2snd : Nat → Opts → Op → Expr → Nat → Nat → Bool → Nat → 
             setitem fuel cc p.1 p.2.1 v) (Expr.comp lsize sf [])
           simplify fuel { bitslice := opts.bitslice } cc
         else eqn2tail fuel opts o l r size sf prop
-    | .cst .. => callOp fuel o l r
+    | .cst .. => do
+        let res ← callOp fuel o l r
+        return res.setSf sf
     | _ => eqn2tail fuel opts o l r size sf prop
 
 /-- the end of `eqn2_helpers`: `vec` distribution and the `x op x` rules (decided by rendering). -/
@@ -756,7 +762,9 @@ def mkSlc : Nat → Expr → Nat → Nat → R Expr
         let res ← getitem fuel x pos (pos + size)
         match res with
         | .slc x2 p2 _ _ _ _ => return .slc x2 p2 size x.sf none (slcEty x2)
-        | _ => throw .attr
+        -- (repaired: the unchanged constructor reads `res.x` of whatever `x[pos:pos+size]` returns and raises
+        --  AttributeError when that is not a slice; the slice of the slice is kept nested, `simplify` resolves it)
+        | _ => return .slc x pos size x.sf none (slcEty x)
     | _ => .ok (.slc x pos size x.sf none (slcEty x))
 
 /-- `c[sta:sto] = v` on a `comp` `c`; returns the updated comp. -/
